@@ -771,6 +771,7 @@ func nsMutate(r *Rng, a *AdmitCase) {
 }
 
 func runC11(c *Ctx) {
+	runRealListerHistory(c)
 	n := sizes(c, 2500, 40000)
 	k := AdmitKnobs{Kind: "ns", FaultPct: 8, SynPct: 70, SubPct: 3, Pods: popGen(14, c.Thorough)}
 	r2 := NewRng(c.Seed + 5)
@@ -940,6 +941,7 @@ func sortStrings(s []string) {
 }
 
 func runC12(c *Ctx) {
+	runRealListerHistory(c)
 	n := sizes(c, 1500, 20000)
 	k := AdmitKnobs{Kind: "ns", FaultPct: 0, SynPct: 85, SubPct: 0, Pods: popGen(12, true)}
 	admitSweep(c, n, k, "allowed warnings evalCalls listCalls timeout", "allowed warnings nEvalCalls listCalls timeout", func(a *AdmitCase, g AdmitOut) {
